@@ -66,8 +66,8 @@ def knownRacy : List Racy := [
   ⟨N.«lru.Cache.ll», N.«lru.Cache.RangeFIFO», N.«lru.Cache.Get»⟩,
   ⟨N.«lru.Cache.ll», N.«lru.Cache.RangeFIFO», N.«lru.Cache.LoadAndDelete»⟩,
   ⟨N.«lru.Cache.ll», N.«lru.Cache.RangeFIFO», N.«lru.Cache.evict»⟩,
-  -- UtxoScanner.Stop drains pq without cv.L while an Enqueue that passed its quit check may still be pushing
-  ⟨N.«UtxoScanner.pq», N.«UtxoScanner.Stop», N.«UtxoScanner.Enqueue»⟩,
+  -- (UtxoScanner.Stop used to drain pq without cv.L while an Enqueue that had passed its quit check could still be
+  --  pushing: repaired in /repo d581b3e, the pair now shares cv.L)
   -- FetchHeaderAncestors reads h.file without the store mutex; truncateHeaders re-assigns it (windows branch only)
   ⟨N.«headerfs.headerFile.file», N.«headerfs.headerFile.truncateHeaders», N.«headerfs.blockHeaderStore.readHeaderRange»⟩,
   ⟨N.«headerfs.headerFile.file», N.«headerfs.headerFile.truncateHeaders», N.«headerfs.filterHeaderStore.readHeaderRange»⟩]
